@@ -15,12 +15,14 @@ CHECK = {'rule': 'rapid-generated signalling programs: context kind in {plain, i
                               'kind:isolated',
                               'kind:scope',
                               'kind:child',
-                              'kind:isochild', 'isolated-of-done-parent', 'post-append-on-isolated-and-parent', 'caller-owned-error-list-reused']},
- 'tiers': {'quick': [{'test': '^TestProp$', 'checks': 5000, 'shards': 6, 'timeout': 240}],
-           'thorough': [{'test': '^TestProp$', 'checks': 30000, 'shards': 16, 'timeout': 3000}]}}
+                              'kind:isochild', 'childrace:end-landed-during-creation', 'isolated-of-done-parent', 'post-append-on-isolated-and-parent', 'caller-owned-error-list-reused']},
+ 'tiers': {'quick': [{'test': '^TestProp$', 'checks': 5000, 'shards': 6, 'timeout': 240},
+                     {'test': '^TestPropChildRace$', 'checks': 12, 'shards': 2, 'timeout': 240, 'seed_offset': 500}],
+           'thorough': [{'test': '^TestProp$', 'checks': 30000, 'shards': 16, 'timeout': 3000},
+                        {'test': '^TestPropChildRace$', 'checks': 150, 'shards': 8, 'timeout': 3000, 'seed_offset': 500}]}}
 
 TEXT = {'technique': 'schedule-directed property testing (rapid): generated multi-goroutine signalling programs on five context/scope kinds with a '
-              'generated rendezvous plan for the verif yield point inside Stop, plus late/racing child creation; invariants over the final state',
+              'generated rendezvous plan for the verif yield point inside Stop, plus late/racing child creation and a swept two-goroutine race of child creation against the end of the parent (delay sweep over the duration of NewChild, thousands of rounds per case); invariants over the final state',
  'level_text': 'Exploration with a directed schedule: the rendezvous at the yield point makes the check-then-close window deterministic (the double '
                'close fired in every paired case before the fix); all other interleavings are sampled under GOMAXPROCS 1/2/4/16.',
  'level_note': 'Hook contextscope.stop.gap (build tag verif) in both context implementations. Panics on harness goroutines are recovered and '
